@@ -59,9 +59,15 @@ def check(case):
             wk = oracle.real_kind(tw)
             if wk == "value":
                 # warn mode raised before any warning: the layout became unknowable
+                from .C08 import justified_value_error
+                just, why = justified_value_error(tw)
                 if sk != "value":
                     res.v("C07.d", "C07.d:%s" % sk, "%s: warn mode raised %r before any warning, strict mode: %r" % (
                         label, tw.exc_sum, ts.exc_sum))
+                elif not just:
+                    # an ordinary out-of-range value: warn mode owes the offending event and then a warning, not an exception
+                    res.v("C07.d", "C07.d:warn-raised-ordinary-value", "%s: warn mode raised %r instead of emitting the offending event and a warning (%s)" % (
+                        label, tw.exc_sum, why))
                 else:
                     res.count("warn-raised-unknowable")
             else:
